@@ -44,6 +44,8 @@ def _run_one(job):
         limits.update(opts.get('limits', {}))
         res = engine.run_symbolic(scen, cfg, lib, limits=limits, known=engine.load_known(), prop=prop_id, cfg_name=name)
         out.update(res)
+        if not res.get('obligations'):
+            out.setdefault('inconclusive', []).append(f'{name}: vacuity: no obligation was reached on any path')
         if opts.get('expect_reach'):
             for chk in opts['expect_reach']:
                 if not res['reach'].get(chk):
@@ -73,11 +75,11 @@ def run_property(prop_id, tier, seed, jobs=None, only=None):
                 results.append(r)
     results.sort(key=lambda r: r['config'])
     # ---- aggregate
-    agg = dict(paths=0, obligations=0, discharged=0, trivial=0, solver_s=0.0, queries=0, validated=0)
+    agg = dict(paths=0, obligations=0, discharged=0, trivial=0, solver_s=0.0, queries=0, validated=0, cut_paths=0)
     violations, known_hits, inconclusive, samples, valfail = [], [], [], [], []
     reach = {}
     for r in results:
-        for k in ('paths', 'obligations', 'discharged', 'trivial', 'queries', 'validated'):
+        for k in ('paths', 'obligations', 'discharged', 'trivial', 'queries', 'validated', 'cut_paths'):
             agg[k] += r.get(k, 0)
         agg['solver_s'] += r.get('solver_s', 0.0)
         violations += r.get('violations', [])
@@ -123,6 +125,7 @@ def run_property(prop_id, tier, seed, jobs=None, only=None):
             'obligations': agg['obligations'], 'discharged': agg['discharged'], 'trivially_true': agg['trivial'],
             'solver_queries': agg['queries'], 'solver_time_s': round(agg['solver_s'], 2),
             'configurations': len(results),
+            'paths_cut_at_unrolling_bound': agg['cut_paths'],
             'functions_encoded': funcs,
             'bounds': getattr(mod, 'BOUNDS', {}),
             'outside_claim': getattr(mod, 'OUTSIDE', []),
